@@ -39,7 +39,7 @@
 (*  ann   = Seq(<<key, value>>) as written; cmt = [lead, trail] sequences  *)
 (*          of [style, body]; gty = abstract Go type of the definition     *)
 (***************************************************************************)
-EXTENDS Integers, Sequences, FiniteSets, TLC
+EXTENDS Integers, Sequences, FiniteSets, TLC, Json
 
 None == [none |-> TRUE]
 Nil  == [f |-> 0, i |-> 0]
@@ -326,5 +326,110 @@ Unmarshal(w) ==
 (* The wire maps of includes and namespaces are keyed by alias / language: as a thrift map<string,string>  *)
 (* they hold one value per key.  A descriptor survives the trip only if its relation is a function.        *)
 Functional(S, key(_)) == \A x, y \in S : key(x) = key(y) => x = y
+
+-----------------------------------------------------------------------------
+(* Part 4: the registry machine                                            *)
+
+Progs == JsonDeserialize("progs.json")     \* the program universe of this run (sequence of programs)
+
+VARIABLES p,        \* the program the behaviour is about (0 = not chosen yet)
+          order,    \* files registered so far, in registration order (layer A: only its range matters)
+          b_inc,    \* layer B: Includes map of each registered descriptor: set of <<f, alias, file>>
+          b_go2d,   \* layer B: Go type -> descriptor tables: set of <<class, ty, def id>>
+          b_d2go    \* layer B: descriptor -> Go type tables: set of <<def id, ty>>
+vars == <<p, order, b_inc, b_go2d, b_d2go>>
+
+P      == Progs[p]
+Reg    == Range(order)
+NFiles == Len(P)
+
+Init == p = 0 /\ order = <<>> /\ b_inc = {} /\ b_go2d = {} /\ b_d2go = {}
+
+Pick(k) == /\ p = 0 /\ p' = k
+           /\ UNCHANGED <<order, b_inc, b_go2d, b_d2go>>
+
+(* Layer B, transcribed: the generated go_types slice lists structs, unions, exceptions, enums, typedefs; *)
+(* registerGoTypes walks Structs ++ Unions ++ Exceptions, then Enums, then Typedefs with running offsets;  *)
+(* a later entry with the same Go type replaces the go2d entry.  GetFileDescriptor fills Includes alias by *)
+(* alias, a later include with the same alias replaces the earlier one.                                    *)
+L(f, kind) == [i \in DOMAIN Defs(P[f], kind) |-> <<f, kind, i>>]
+StructList(f) == L(f, "struct") \o L(f, "union") \o L(f, "exception")
+RegList(f)    == StructList(f) \o L(f, "enum") \o L(f, "typedef")
+TplList(f)    == L(f, "struct") \o L(f, "union") \o L(f, "exception") \o L(f, "enum") \o L(f, "typedef")
+GoTypes(f)    == [k \in DOMAIN TplList(f) |-> GTy(P, TplList(f)[k])]
+
+Register(f) ==
+  /\ p > 0 /\ f \in 1..NFiles /\ f \notin Reg
+  /\ order' = Append(order, f)
+  /\ LET rl  == RegList(f)
+         gt  == GoTypes(f)
+         new == {<<Cls(rl[k][2]), gt[k]>> : k \in DOMAIN rl}
+         win(c) == rl[MaxOf({k \in DOMAIN rl : <<Cls(rl[k][2]), gt[k]>> = c})]
+     IN  /\ b_d2go' = b_d2go \cup {<<rl[k], gt[k]>> : k \in DOMAIN rl}
+         /\ b_go2d' = {x \in b_go2d : <<x[1], x[2]>> \notin new} \cup {<<c[1], c[2], win(c)>> : c \in new}
+  /\ b_inc' = b_inc \cup {<<f, P[f].incs[k].alias, P[f].incs[MaxOf(IncsWith(P, f, P[f].incs[k].alias))].file>>
+                            : k \in DOMAIN P[f].incs}
+  /\ UNCHANGED p
+
+Next == (\E k \in 1..Len(Progs) : Pick(k)) \/ (\E f \in 1..4 : Register(f))
+Spec == Init /\ [][Next]_vars
+
+(* layer B's answer to fd(f).Get<Kind>Descriptor("pre.name") *)
+BGet(f, kind, pre, name) ==
+  IF pre = "" THEN Local(P, f, kind, name)
+  ELSE LET T == {x \in b_inc : x[1] = f /\ x[2] = pre}
+       IN  IF T = {} THEN Nil
+           ELSE LET g == (CHOOSE x \in T : TRUE)[3] IN IF g \in Reg THEN Local(P, g, kind, name) ELSE Nil
+
+----------------------------------------------------------------------------
+(* Invariants (checked for every registration order of every program)      *)
+
+TypeOK == /\ p \in 0..Len(Progs)
+          /\ p > 0 => Reg \subseteq 1..NFiles /\ Len(order) = Cardinality(Reg)
+
+(* each Go type maps to the descriptor of its own definition and back *)
+GoTypeOwn ==
+  p > 0 => \A f \in Reg : \A d \in DefIds(P, f) :
+             /\ d \in ByGoSet(P, Reg, Cls(d[2]), GTy(P, d))
+             /\ d[2] # "typedef" => ByGoSet(P, Reg, Cls(d[2]), GTy(P, d)) = {d}
+             /\ \A r \in ByGoSet(P, Reg, Cls(d[2]), GTy(P, d)) : GTy(P, r) = GTy(P, d)
+BGoTypes ==
+  p > 0 => /\ \A x \in b_d2go : x[2] = GTy(P, x[1])
+           /\ \A x \in b_go2d : x[3] \in ByGoSet(P, Reg, x[1], x[2])
+           /\ \A f \in Reg : \A d \in DefIds(P, f) :
+                 /\ \E x \in b_d2go : x[1] = d
+                 /\ \E x \in b_go2d : x[1] = Cls(d[2]) /\ x[2] = GTy(P, d)
+
+(* a lookup through an include alias reaches the included file's entry - as soon as that file is registered, *)
+(* and not before; a local lookup reaches the file's own entry                                              *)
+AliasReach ==
+  p > 0 => \A f \in Reg :
+     /\ \A kind \in Kinds : \A i \in DOMAIN Defs(P[f], kind) :
+           Get(P, Reg, f, kind, "", Defs(P[f], kind)[i].name).f = f
+     /\ \A k \in DOMAIN P[f].incs :
+         LET a == P[f].incs[k].alias  g == P[f].incs[k].file IN
+         ~AliasClash(P, f, a) =>
+           \A kind \in Kinds : \A i \in DOMAIN Defs(P[g], kind) :
+              /\ Get(P, Reg, f, kind, a, Defs(P[g], kind)[i].name)
+                    = IF g \in Reg THEN Local(P, g, kind, Defs(P[g], kind)[i].name) ELSE Nil
+              /\ BGet(f, kind, a, Defs(P[g], kind)[i].name) = Get(P, Reg, f, kind, a, Defs(P[g], kind)[i].name)
+(* with clashing aliases B and A part: the queries on which they differ are candidates for the real code *)
+BDiffers ==
+  {<<f, kind, P[f].incs[k].alias, Defs(P[P[f].incs[k].file], kind)[i].name>> :
+      f \in Reg, k \in 1..4, kind \in Kinds, i \in 1..8} \cap {}
+
+(* encoding a file descriptor and decoding it again is the identity *)
+RoundTrip ==
+  (p > 0 /\ order = <<>>) =>
+     \A f \in 1..NFiles :
+        LET d == Desc(P, f) IN
+        (Functional(d.includes, LAMBDA x : x.alias) /\ Functional(d.namespaces, LAMBDA x : x.lang))
+           => Unmarshal(Marshal(d)) = d
+
+(* the expectation handed to the conformance side, and every complete registration order *)
+Emit ==
+  /\ (p > 0 /\ order = <<>>) =>
+        PrintT("CASE " \o ToJson([p |-> p, clash |-> HasClash(P), descs |-> [f \in 1..NFiles |-> Desc(P, f)]]))
+  /\ (p > 0 /\ Len(order) = NFiles) => PrintT("ORDER " \o ToJson([p |-> p, order |-> order]))
 
 =============================================================================
